@@ -145,6 +145,32 @@ def ob_law_for_service(vc):
         vc.check_eq(r.protocol, g.protocol, "for_service.protocol")
 
 
+def ob_matcher_history(vc):
+    """matching after earlier matching: three calls in a row (same filter or another one,
+    same kind of matcher or another one, entries that differ in any field) each give the
+    answer of the wildcard spec for their own arguments -- nothing is remembered between
+    calls.  Natively this is the search that decides when a matcher is found to keep state
+    (global frame, DESIGN 3.5)."""
+    s1 = SC.gen_service(vc, "S1", with_options=False)
+    k = 0
+    # symbolically: two calls of one matcher (the paths of the calls multiply); natively: three
+    # calls of any mix
+    first = vc.choice("matcher", ("offer", "find", "service"))
+    for name in ("a", "b", "c") if vc.native else ("a", "b"):
+        s = s1 if vc.bool(name + ".same_filter") else SC.gen_service(vc, name + ".S", with_options=False)
+        which = vc.choice(name + ".matcher", ("offer", "find", "service")) if vc.native else first
+        if which == "offer":
+            e = SC.gen_entry(vc, name + ".E")
+            vc.same_outcome(vc.outcome(vc.body(C.Service.matches_offer), s, e), vc.outcome(SC.matches_offer, s, e), "history[" + str(k) + "].matches_offer.refines")
+        elif which == "find":
+            e = SC.gen_entry(vc, name + ".E")
+            vc.same_outcome(vc.outcome(vc.body(C.Service.matches_find), s, e), vc.outcome(SC.matches_find, s, e), "history[" + str(k) + "].matches_find.refines")
+        else:
+            o = SC.gen_service(vc, name + ".O", with_options=False)
+            vc.same_outcome(vc.outcome(vc.body(C.Service.matches_service), s, o), vc.outcome(SC.matches_service, s, o), "history[" + str(k) + "].matches_service.refines")
+        k += 1
+
+
 def canary_symmetry_of_offer(vc):
     """must be refuted: matches_offer is NOT symmetric in its wildcard handling"""
     a = gen_service(vc, "A", with_options=False)
@@ -162,6 +188,7 @@ HARNESSES = SC.REFINES + [
     ob_law_subscribe_iff,
     ob_law_offer_roundtrip,
     ob_law_for_service,
+    ob_matcher_history,
     canary_symmetry_of_offer,
 ]
 
